@@ -8,9 +8,20 @@ from .common import wint, wdy
 OPS = {'add': '+', 'sub': '-', 'mul': '*'}
 
 
-def mk(fx, np, t, codes, shape=None, **cfg):
-    """Fxp of format t = (s, w, f) holding exactly the integer codes (array, or scalar if codes is an int)"""
+def mk(fx, np, t, codes, shape=None, dirty=False, **cfg):
+    """Fxp of format t = (s, w, f) holding exactly the integer codes (array, or scalar if codes is an int).
+    dirty: the object has a HISTORY - an earlier out-of-range, inexact write raised all its sticky flags."""
     s, w, f = t
+    if dirty:
+        x = fx.Fxp(None, bool(s), w, f, **cfg)
+        x(2.0 ** (w - f + 2) + 2.0 ** (-f - 1))         # overflow + inaccuracy
+        x(-(2.0 ** (w - f + 2)) - 2.0 ** (-f - 1))       # underflow
+        if isinstance(codes, int):
+            x.set_val(codes, raw=True)
+        else:
+            a = np.array([int(c) for c in codes], dtype=object if w >= 63 else (np.int64 if s else np.uint64))
+            x.set_val(a.reshape(shape) if shape is not None else a, raw=True)
+        return x
     if isinstance(codes, int):
         return fx.Fxp(codes, bool(s), w, f, raw=True, **cfg)
     dt = object if w >= 63 else (np.int64 if s else np.uint64)
@@ -49,7 +60,7 @@ def apply(fx, np, op, X, Y, route, **kw):
 
 
 def observe_arith(fx, np, props, op, tx, ty, cxs, cys, route='operator', sizing='optimal', method='raw', xmodes=None,
-                  ymodes=None, target=None, tfmt=None, tmodes=None, scalar=False, shape=None, extra=None):
+                  ymodes=None, target=None, tfmt=None, tmodes=None, scalar=False, shape=None, extra=None, dirty=False):
     """one array (or scalar) operation.  Returns an observation row (or an error row)."""
     xm = xmodes or ('trunc', 'saturate')
     ym = ymodes or ('trunc', 'saturate')
@@ -58,12 +69,13 @@ def observe_arith(fx, np, props, op, tx, ty, cxs, cys, route='operator', sizing=
             'xm': {'r': xm[0], 'o': xm[1]}, 'ym': {'r': ym[0], 'o': ym[1]}, 'target': target or 'none',
             'tf': dict(zip('swf', (bool(tfmt[0]), tfmt[1], tfmt[2]))) if tfmt else {'s': False, 'w': 0, 'f': 0},
             'tm': {'r': tmodes[0], 'o': tmodes[1]} if tmodes else {'r': 'trunc', 'o': 'saturate'},
-            'agg': not scalar, 'carrier': 'scalar' if scalar else 'array'}
+            'agg': not scalar, 'carrier': 'scalar' if scalar else 'array', 'dirty': bool(dirty)}
     if extra:
         base.update(extra)
     try:
-        X = mk(fx, np, tx, cxs[0] if scalar else cxs, shape, rounding=xm[0], overflow=xm[1])
-        Y = mk(fx, np, ty, cys[0] if scalar else cys, shape, rounding=ym[0], overflow=ym[1])
+        X = mk(fx, np, tx, cxs[0] if scalar else cxs, shape, dirty=dirty, rounding=xm[0], overflow=xm[1])
+        Y = mk(fx, np, ty, cys[0] if scalar else cys, shape, dirty=dirty, rounding=ym[0], overflow=ym[1])
+        base['opi'] = bool(X.status['inaccuracy'] or Y.status['inaccuracy'])
         kw = {}
         T = None
         if target:
